@@ -172,7 +172,9 @@ def _wrap_worker(a):
         filler = []
         for k in range(n - 1):
             filler += ["%d C 192.0.2.9 2000 10.0.0.1 6667" % (cid + 1), "%d D" % (cid + 1)]
-        outs = s.d.steps(filler)
+        outs = []
+        for k0 in range(0, len(filler), 40000):
+            outs += [o for o in s.d.steps(filler[k0:k0 + 40000]) if o]
         res["stats"]["serial_wrap_filler_connections"] = n - 1
         noisy = [o for o in outs if o]
         s.do({"t": "announce", "id": cid, "ip": "192.0.2.2", "port": 1002})
